@@ -24,6 +24,9 @@ Values(f, n) ==
   CASE f = "cid"    -> {0, 1, 2, 3} \cup (IF WideIn(n) THEN {6} ELSE {})
     [] f = "tu1"    -> {<<65>>, <<66>>, <<67>>, <<68>>} \cup (IF WideIn(n) THEN {<<HoleLo - 1>>} ELSE {})
     [] f = "tuEdge" -> {<<HoleLo - 2>>, <<HoleLo - 1>>, <<Repl>>, <<Repl + 1>>} \cup (IF WideIn(n) THEN {<<RuneMax>>} ELSE {})
+    \* two-rune texts whose last runes are consecutive while the leading rune is equal (a genuine
+    \* incrementing range) or not ("fi", "fj", "tj", "tk"); Wide: a longer text, a low byte at FF
+    [] f = "tuPrefix" -> {<<102, 105>>, <<102, 106>>, <<116, 106>>, <<116, 107>>} \cup (IF WideIn(n) THEN {<<102, 105, 106>>, <<116, 255>>} ELSE {})
     [] f = "tuMix"  -> {<<>>, <<102>>, <<102, 105>>, <<102, 106>>} \cup (IF WideIn(n) THEN {<<102, HoleLo - 1>>, <<102, Repl>>} ELSE {})
 NotdefChoices(n) ==
   CASE n = "s1"  -> {[lo |-> <<0>>, hi |-> <<1>>, v |-> 9]} \cup (IF WideIn(n) THEN {[lo |-> <<1>>, hi |-> <<B - 1>>, v |-> 8]} ELSE {})
